@@ -36,6 +36,8 @@ QSETS = {
     "none": (None, None),
     "fixed": ("quantized_bits(6,1,1,alpha=1)", "quantized_bits(8,3,1,alpha=1)"),
     "po2": ("quantized_po2(5)", "quantized_bits(8,3,1,alpha=1)"),
+    # a bias grid fine enough (2^-11) that an error of a few 1e-3 in the folded bias survives its quantization
+    "fine": ("quantized_bits(6,1,1,alpha=1)", "quantized_bits(24,12,1,alpha=1)"),
 }
 AXES = {
     "folding_mode": ["ema_stats_folding", "batch_stats_folding"], "use_bias": [True, False], "center": [True, False],
@@ -67,8 +69,10 @@ def enumerate_cases(tier, seed):
         continue
       out.append(dict(sub="layer", cls=cls, g=g, _seed=seed))
   for prog in PROGRAMS:
-    for si in range(3):
-      for q in ("fixed", "po2"):
+    for si in range(4):
+      if si == 3 and prog not in ("conv_bn", "dw_bn", "conv_bn_conv_bn"):
+        continue      # stats 3: conv bias and moving mean both near 3000 and nearly equal, small variance (cancellation)
+      for q in (("fixed", "po2") if si != 3 else ("fine",)):
         out.append(dict(sub="model", prog=prog, stats=si, q=q, _seed=seed))
         if prog in ("conv_bn_relu_dense", "conv_bn_dense_statsbn") and q == "fixed":
           # the folded model in a non-initial state before it is unfolded: layers that are NOT folded frozen (fine-tuning),
@@ -271,12 +275,21 @@ def run_model(case):
     for j, w in enumerate(ws):
       nm = l.weights[j].name
       v = common.tensor(w.shape, "grid7", i + j + case["_seed"]) * np.float32(0.6)
+      s2 = min(si, 2)
       if "moving_variance" in nm:
-        v = (np.abs(v) + np.float32([1.0, 1e-3, 20.0][si])).astype(np.float32)
+        v = (np.abs(v) + np.float32([1.0, 1e-3, 20.0][s2])).astype(np.float32)
       elif "gamma" in nm:
-        v = v + np.float32([1.0, -0.5, 2.0][si])
+        v = v + np.float32([1.0, -0.5, 2.0][s2])
       elif w.ndim == 1:
-        v = v * np.float32(0.5) + np.float32(0.1 * si)
+        v = v * np.float32(0.5) + np.float32(0.1 * s2)
+      if si == 3 and w.ndim == 1:
+        ar = np.arange(w.shape[0], dtype=np.float32)
+        if "moving_mean" in nm:
+          v = np.float32(3000.0) + np.float32(0.5) * ar
+        elif "moving_variance" in nm:
+          v = np.float32(0.01) * (1 + ar)
+        elif "bias" in nm:
+          v = np.float32(3000.0) + np.float32(0.5) * ar + np.float32(0.01) * (ar + 1)
       new.append(v.astype(np.float32))
     l.set_weights(new)
   xs = [common.tensor((2, 6, 6, 3), "ramp", case["_seed"]), common.tensor((2, 6, 6, 3), "grid7", case["_seed"])]
@@ -355,7 +368,9 @@ def run_model(case):
             setattr(ql, attr, None)
       yf = [np.asarray(qm(tf.constant(x), training=False), dtype=np.float64) for x in xs]
       evals += len(xs)
-      for a, b in zip(yf, y0):
+      # (statistics 3: the SOURCE model adds a bias near 3000 to the convolution in float32 before the normalisation and
+      # loses the low bits itself; only the unfold clause is judged there)
+      for a, b in zip(yf, y0 if si != 3 else yf):
         if not np.allclose(a, b, rtol=0, atol=5e-5 * (np.max(np.abs(b)) + 1.0)):
           bad("convert-to-folded", "the folded model (weights copied by name, quantizers off) differs from the source "
               "conv+BN model at inference (max |d| = %g)" % float(np.max(np.abs(a - b))))
